@@ -1,7 +1,433 @@
-(* Proofs about Model/Fs.v (C11). *)
+(* Proofs about Model/Fs.v (C11), part B: buffer arithmetic. *)
 From UV Require Import Lib.Base Model.Fs.
 
 Lemma result_of_err e : result_of (RErr e) = (- e)%Z.
 Proof. reflexivity. Qed.
 Lemma result_of_ok n : result_of (ROk n) = Z.of_nat n.
 Proof. reflexivity. Qed.
+
+Section B.
+Context {A : Type}.
+Implicit Types (bufs : list (buf A)) (data : list A).
+
+(* ---------- list facts ---------- *)
+Lemma firstn_add n m (l : list A) :
+  firstn (n + m) l = firstn n l ++ firstn m (skipn n l).
+Proof.
+  revert l; induction n as [|n IH]; intros l; simpl; auto.
+  destruct l; simpl; [now rewrite firstn_nil | now rewrite IH].
+Qed.
+
+Lemma concat_firstn_skipn k bufs : concat bufs = concat (firstn k bufs) ++ concat (skipn k bufs).
+Proof. rewrite <- concat_app, firstn_skipn; reflexivity. Qed.
+
+Lemma firstn_concat_prefix k n bufs :
+  n <= length (concat (firstn k bufs)) ->
+  firstn n (concat (firstn k bufs)) = firstn n (concat bufs).
+Proof.
+  intros H. rewrite (concat_firstn_skipn k bufs).
+  rewrite firstn_app. replace (n - length (concat (firstn k bufs))) with 0 by lia.
+  simpl; now rewrite app_nil_r.
+Qed.
+
+Lemma total_len_firstn_le k bufs : total_len (firstn k bufs) <= total_len bufs.
+Proof.
+  unfold total_len. rewrite (concat_firstn_skipn k bufs). rewrite app_length. lia.
+Qed.
+
+(* ---------- scatter (readv) ---------- *)
+Lemma scatter_nil bufs : scatter [] bufs = bufs.
+Proof.
+  induction bufs as [|b bs IH]; simpl; auto.
+  rewrite firstn_nil, skipn_nil. simpl. now rewrite IH.
+Qed.
+
+Lemma scatter_lengths data bufs : map (@length A) (scatter data bufs) = map (@length A) bufs.
+Proof.
+  revert data; induction bufs as [|b bs IH]; intros data; simpl; auto.
+  rewrite IH. f_equal. rewrite app_length, firstn_length, skipn_length. lia.
+Qed.
+
+Lemma scatter_concat data bufs :
+  length data <= total_len bufs ->
+  concat (scatter data bufs) = data ++ skipn (length data) (concat bufs).
+Proof.
+  unfold total_len.
+  revert data; induction bufs as [|b bs IH]; intros data H; simpl in *.
+  - destruct data; simpl in *; [reflexivity | lia].
+  - rewrite app_length in H.
+    destruct (Nat.le_gt_cases (length data) (length b)) as [Hle|Hgt].
+    + rewrite (firstn_all2 data) by lia.
+      rewrite (skipn_all2 data) by lia. rewrite scatter_nil.
+      rewrite skipn_app. replace (length data - length b) with 0 by lia. simpl.
+      now rewrite <- app_assoc.
+    + rewrite (skipn_all2 b) by lia. rewrite app_nil_r.
+      rewrite IH by (rewrite skipn_length; lia).
+      rewrite skipn_length, skipn_app.
+      rewrite (skipn_all2 b) by lia. simpl.
+      rewrite app_assoc, firstn_skipn. reflexivity.
+Qed.
+
+(* ---------- pick_call ---------- *)
+Lemma pick_call_some bufs nb off c :
+  pick_call bufs nb off = Some c ->
+  exists k, riov c = firstn k bufs /\ k <= nb /\ 1 <= k /\
+            roff c = (if (off <? 0)%Z then (-1)%Z else off).
+Proof.
+  unfold pick_call. intros H.
+  destruct (off <? 0)%Z; destruct (nb =? 1) eqn:E1.
+  1,3: apply Nat.eqb_eq in E1; inversion H; subst c; exists 1; cbn [riov roff];
+       repeat split; auto; lia.
+  all: destruct (1 <? nb) eqn:E2; inversion H; subst c; apply Nat.ltb_lt in E2;
+       exists nb; cbn [riov roff]; repeat split; auto; lia.
+Qed.
+
+Lemma pick_call_is_some bufs nb off : 1 <= nb -> pick_call bufs nb off <> None.
+Proof.
+  intros H. unfold pick_call.
+  destruct (off <? 0)%Z; destruct (nb =? 1) eqn:E1; try discriminate;
+    destruct (1 <? nb) eqn:E2; try discriminate;
+    apply Nat.eqb_neq in E1; apply Nat.ltb_ge in E2; lia.
+Qed.
+
+(* ---------- uv__fs_read ---------- *)
+(* Every buffer keeps its length; read as one sequence, the buffers hold the
+   n bytes of the file that start at the given offset (or at the descriptor's
+   position), followed by what they held before; the result is n; the
+   descriptor moves by n exactly when no offset was given.  n is whatever the
+   kernel delivered (at most what was asked for and what the file has). *)
+Theorem read_fills_in_order :
+  forall (iovmax : nat) bufs (off : Z) (file : list A) (pos n : nat) c,
+  fs_read_call iovmax bufs off = Some c ->
+  let start := if (off <? 0)%Z then pos else Z.to_nat off in
+  n <= total_len (riov c) -> n <= length (skipn start file) ->
+  exists bufs',
+    fs_read iovmax bufs off file pos (AOk n) =
+      (ROk n, bufs', if (off <? 0)%Z then pos + n else pos) /\
+    map (@length A) bufs' = map (@length A) bufs /\
+    concat bufs' = firstn n (skipn start file) ++ skipn n (concat bufs) /\
+    length (riov c) <= iovmax /\ riov c = firstn (length (riov c)) bufs.
+Proof.
+  intros iovmax bufs off file pos n c Hc start Hn Hav.
+  unfold fs_read. rewrite Hc. fold start.
+  set (data := firstn n (skipn start file)).
+  assert (Hd : length data = n) by (unfold data; rewrite firstn_length; lia).
+  unfold fs_read_call in Hc.
+  destruct (pick_call_some _ _ _ _ Hc) as (k & Hk & Hle & H1 & _).
+  assert (Hkk : k <= iovmax) by (destruct (iovmax <? length bufs) eqn:E; [lia|apply Nat.ltb_ge in E; lia]).
+  assert (Hkl : k <= length bufs)
+    by (destruct (iovmax <? length bufs) eqn:E; [apply Nat.ltb_lt in E; lia|lia]).
+  eexists. split; [|split; [|split; [|split]]].
+  - rewrite Hd. reflexivity.
+  - rewrite map_app, scatter_lengths, Hk, <- map_app.
+    rewrite firstn_length, Nat.min_l by lia. now rewrite firstn_skipn.
+  - rewrite concat_app, scatter_concat by (rewrite Hd; exact Hn).
+    rewrite Hd, Hk, firstn_length, Nat.min_l by lia.
+    rewrite <- app_assoc. f_equal.
+    rewrite (concat_firstn_skipn k bufs).
+    rewrite skipn_app. rewrite Hk in Hn. unfold total_len in Hn.
+    replace (n - length (concat (firstn k bufs))) with 0 by lia. reflexivity.
+  - rewrite Hk, firstn_length. lia.
+  - rewrite Hk, firstn_length, Nat.min_l by lia. reflexivity.
+Qed.
+
+(* a failed read leaves buffers and position alone and reports the errno *)
+Lemma read_error iovmax bufs off file pos e c :
+  fs_read_call iovmax bufs off = Some c ->
+  fs_read iovmax bufs off file pos (AErr e) = (RErr e, bufs, pos).
+Proof. intros H. unfold fs_read. now rewrite H. Qed.
+
+Lemma read_call_exists iovmax bufs off :
+  1 <= iovmax -> bufs <> [] -> fs_read_call iovmax bufs off <> None.
+Proof.
+  intros Hi Hb. unfold fs_read_call. apply pick_call_is_some.
+  destruct bufs; [congruence|]. simpl. destruct (iovmax <? S (length bufs)); lia.
+Qed.
+
+(* ---------- uv__fs_buf_offset ---------- *)
+Lemma buf_offset_concat bufs n o bufs' :
+  buf_offset bufs n = (o, bufs') -> n <= total_len bufs ->
+  concat (skipn o bufs') = skipn n (concat bufs) /\ o <= length bufs.
+Proof.
+  unfold total_len.
+  revert n o bufs'; induction bufs as [|b rest IH]; intros n o bufs' H Hn; simpl in *.
+  - inversion H; subst. destruct n; simpl in *; [auto | lia].
+  - rewrite app_length in Hn.
+    destruct ((0 <? n) && (length b <=? n)) eqn:E.
+    + apply andb_prop in E as [E1 E2]. apply Nat.ltb_lt in E1. apply Nat.leb_le in E2.
+      destruct (buf_offset rest (n - length b)) as [o' bs] eqn:Er.
+      inversion H; subst. simpl.
+      destruct (IH _ _ _ Er) as [IH1 IH2]; [lia|]. split; [|lia].
+      rewrite IH1, skipn_app, (skipn_all2 b) by lia. reflexivity.
+    + destruct (0 <? n) eqn:E1.
+      * simpl in E. apply Nat.leb_gt in E. inversion H; subst. simpl. split; [|lia].
+        rewrite skipn_app. replace (n - length b) with 0 by lia. reflexivity.
+      * apply Nat.ltb_ge in E1. assert (n = 0) by lia. subst.
+        inversion H; subst. simpl. split; [reflexivity|lia].
+Qed.
+
+(* shape of what remains: a suffix of the array, possibly with a shortened,
+   still non-empty first buffer *)
+Lemma buf_offset_shape bufs n o bufs' :
+  buf_offset bufs n = (o, bufs') -> n <= total_len bufs ->
+  skipn o bufs' = skipn o bufs \/
+  exists b b' rest, skipn o bufs = b :: rest /\ skipn o bufs' = b' :: rest /\ b' <> [].
+Proof.
+  unfold total_len.
+  revert n o bufs'; induction bufs as [|b rest IH]; intros n o bufs' H Hn; simpl in *.
+  - inversion H; subst. now left.
+  - rewrite app_length in Hn.
+    destruct ((0 <? n) && (length b <=? n)) eqn:E.
+    + apply andb_prop in E as [E1 E2]. apply Nat.ltb_lt in E1. apply Nat.leb_le in E2.
+      destruct (buf_offset rest (n - length b)) as [o' bs] eqn:Er.
+      inversion H; subst. simpl. apply (IH _ _ _ Er). lia.
+    + destruct (0 <? n) eqn:E1.
+      * simpl in E. apply Nat.leb_gt in E. inversion H; subst. simpl.
+        right. exists b, (skipn n b), rest. repeat split.
+        intros Hnil. apply (f_equal (@length A)) in Hnil. rewrite skipn_length in Hnil.
+        simpl in Hnil. lia.
+      * inversion H; subst. now left.
+Qed.
+
+(* ---------- uv__fs_write_all ---------- *)
+Section WA.
+Context {St : Type}.
+Variable sys : St -> rwcall A -> answer * St.
+
+Definition honest (lg : list (rwcall A * answer)) : Prop :=
+  Forall (fun w => match snd w with AOk n => n <= total_len (riov (fst w)) | AErr _ => True end) lg.
+
+(* the offsets of the logged calls: the given offset plus what went before,
+   or always "none" when the descriptor's position is used *)
+Fixpoint offsets_ok (off : Z) (lg : list (rwcall A * answer)) : Prop :=
+  match lg with
+  | [] => True
+  | w :: l =>
+    roff (fst w) = (if (off <? 0)%Z then (-1)%Z else off) /\
+    offsets_ok (match snd w with
+                | AOk n => if (0 <=? off)%Z then (off + Z.of_nat n)%Z else off
+                | AErr _ => off end) l
+  end.
+
+Lemma written_cons (w : rwcall A * answer) lg : written (w :: lg) = wrec_data w ++ written lg.
+Proof. reflexivity. Qed.
+
+Lemma call_window bufs iovmax off c :
+  pick_call bufs (if iovmax <? length bufs then iovmax else length bufs) off = Some c ->
+  riov c = firstn iovmax bufs.
+Proof.
+  intros H.
+  assert (Hn : riov c = firstn (if iovmax <? length bufs then iovmax else length bufs) bufs).
+  { unfold pick_call in H.
+    destruct (off <? 0)%Z;
+      destruct ((if iovmax <? length bufs then iovmax else length bufs) =? 1) eqn:E1;
+      try (apply Nat.eqb_eq in E1; rewrite E1; inversion H; reflexivity);
+      destruct (1 <? (if iovmax <? length bufs then iovmax else length bufs));
+      inversion H; reflexivity. }
+  rewrite Hn. destruct (iovmax <? length bufs) eqn:E; auto.
+  apply Nat.ltb_ge in E. rewrite !firstn_all2; auto.
+Qed.
+
+Lemma call_of_loop bufs iovmax off c :
+  pick_call bufs (if iovmax <? length bufs then iovmax else length bufs) off = Some c ->
+  (forall n, n <= total_len (riov c) -> firstn n (concat (riov c)) = firstn n (concat bufs)) /\
+  total_len (riov c) <= total_len bufs /\ length (riov c) <= iovmax /\
+  roff c = (if (off <? 0)%Z then (-1)%Z else off).
+Proof.
+  intros H. destruct (pick_call_some _ _ _ _ H) as (k & Hk & Hle & H1 & Ho).
+  rewrite Hk. repeat split; auto.
+  - intros n Hn. now apply firstn_concat_prefix.
+  - apply total_len_firstn_le.
+  - rewrite firstn_length. destruct (iovmax <? length bufs) eqn:E; [lia|].
+    apply Nat.ltb_ge in E. lia.
+Qed.
+
+Ltac six := split; [|split; [|split; [|split; [|split]]]].
+Ltac term_case :=
+  six; [ reflexivity | simpl; lia | exact I | constructor
+       | intros ? Ht; try discriminate; inversion Ht; simpl; lia
+       | intros ? He; discriminate ].
+
+(* Whatever the system answers (short counts, EINTR, errors, in any pattern):
+   the bytes accepted are, in order, the first [wcount] bytes of the buffer
+   list, each call starts where the previous one stopped, and the value
+   returned is that count (or the error when nothing was written). *)
+Theorem write_all_prefix_gen :
+  forall (fuel iovmax : nat) (s : St) bufs (off : Z) (total : nat) r lg s',
+  write_all_loop sys fuel iovmax s bufs off total = (r, lg, s') ->
+  honest lg ->
+  written lg = firstn (wcount lg) (concat bufs) /\
+  wcount lg <= total_len bufs /\
+  offsets_ok off lg /\
+  Forall (fun w => length (riov (fst w)) <= iovmax) lg /\
+  (forall t, r = WDone (ROk t) -> t = total + wcount lg) /\
+  (forall e, r = WDone (RErr e) -> total = 0 /\ wcount lg = 0).
+Proof.
+  induction fuel as [|fuel IH]; intros iovmax s bufs off total r lg s' H Hh.
+  - simpl in H. destruct bufs as [|b bs].
+    + inversion H; subst. term_case.
+    + destruct (pick_call _ _ _); inversion H; subst; term_case.
+  - simpl in H. destruct bufs as [|b bs].
+    + inversion H; subst. term_case.
+    + set (bufs := b :: bs) in *.
+      destruct (pick_call bufs (if iovmax <? length bufs then iovmax else length bufs) off)
+        as [c|] eqn:Hc.
+      2:{ inversion H; subst. term_case. }
+      destruct (call_of_loop _ _ _ _ Hc) as (Hpre & Htl & Hlen & Hoff).
+      destruct (sys s c) as [a s1] eqn:Hs.
+      destruct a as [e|n].
+      * destruct (e =? EINTR)%Z.
+        -- destruct (write_all_loop sys fuel iovmax s1 bufs off total) as [[r1 lg1] s2] eqn:Hr.
+           inversion H; subst. inversion Hh; subst.
+           destruct (IH _ _ _ _ _ _ _ _ Hr H3) as (I1 & I2 & I3 & I4 & I5 & I6).
+           rewrite written_cons. six.
+           { exact I1. }
+           { exact I2. }
+           { simpl. split; [exact Hoff | exact I3]. }
+           { constructor; [exact Hlen | exact I4]. }
+           { exact I5. }
+           { exact I6. }
+        -- inversion H; subst. six.
+           { reflexivity. }
+           { simpl; lia. }
+           { simpl. split; [exact Hoff | exact I]. }
+           { constructor; [exact Hlen | constructor]. }
+           { intros t Ht. destruct (total =? 0); inversion Ht. simpl; lia. }
+           { intros e0 He. destruct (total =? 0) eqn:E; inversion He.
+             apply Nat.eqb_eq in E. simpl; auto. }
+      * destruct n as [|m].
+        -- inversion H; subst. six.
+           { reflexivity. }
+           { simpl; lia. }
+           { simpl. split; [exact Hoff | exact I]. }
+           { constructor; [exact Hlen | constructor]. }
+           { intros t Ht. inversion Ht. simpl; lia. }
+           { intros e He. discriminate. }
+        -- set (n := S m) in *.
+           destruct (buf_offset bufs n) as [o bufs1] eqn:Hbo.
+           destruct (write_all_loop sys fuel iovmax s1 (skipn o bufs1)
+                       (if (0 <=? off)%Z then (off + Z.of_nat n)%Z else off) (total + n))
+             as [[r1 lg1] s2] eqn:Hr.
+           inversion H; subst r lg s'. inversion Hh as [|? ? Hn Hh1]; subst. simpl in Hn.
+           destruct (IH _ _ _ _ _ _ _ _ Hr Hh1) as (I1 & I2 & I3 & I4 & I5 & I6).
+           assert (Hnb : n <= total_len bufs) by lia.
+           destruct (buf_offset_concat _ _ _ _ Hbo Hnb) as [Hcc _].
+           rewrite Hcc in I1. unfold total_len in I2. rewrite Hcc, skipn_length in I2.
+           rewrite written_cons. unfold wrec_data at 1. cbn [fst snd].
+           assert (Hwc : wcount ((c, AOk n) :: lg1) = n + wcount lg1) by reflexivity.
+           rewrite Hwc. six.
+           { rewrite Hpre by exact Hn. rewrite I1. symmetry. apply firstn_add. }
+           { unfold total_len in *. lia. }
+           { simpl. split; [exact Hoff | exact I3]. }
+           { constructor; [exact Hlen | exact I4]. }
+           { intros t Ht. rewrite (I5 _ Ht). lia. }
+           { intros e He. destruct (I6 _ He). lia. }
+Qed.
+
+(* ---- completeness ---- *)
+(* no run of iovmax empty buffers is followed by data *)
+Definition no_empty_window (iovmax : nat) bufs : Prop :=
+  forall k, concat (firstn iovmax (skipn k bufs)) = [] -> concat (skipn k bufs) = [].
+
+(* the system never fails (EINTR aside) and never answers 0 to a request for
+   at least one byte *)
+Definition progress (lg : list (rwcall A * answer)) : Prop :=
+  Forall (fun w => match snd w with
+                   | AErr e => e = EINTR
+                   | AOk n => 0 < total_len (riov (fst w)) -> 0 < n
+                   end) lg.
+
+Lemma skipn_skipn' {T} x y (l : list T) : skipn x (skipn y l) = skipn (y + x) l.
+Proof.
+  revert l; induction y as [|y IH]; intros l; simpl; auto.
+  destruct l; simpl; [now rewrite skipn_nil | apply IH].
+Qed.
+
+Lemma wnd_skipn iovmax bufs o : no_empty_window iovmax bufs -> no_empty_window iovmax (skipn o bufs).
+Proof. intros H k. rewrite skipn_skipn'. apply H. Qed.
+
+Lemma wnd_head iovmax b b' rest :
+  1 <= iovmax -> b' <> [] -> no_empty_window iovmax (b :: rest) -> no_empty_window iovmax (b' :: rest).
+Proof.
+  intros Hi Hb H [|k]; simpl.
+  - destruct iovmax; [lia|]. simpl. intros Hnil. apply app_eq_nil in Hnil as [Hnil _]. contradiction.
+  - apply (H (S k)).
+Qed.
+
+Theorem write_all_complete_gen :
+  forall (fuel iovmax : nat) (s : St) bufs (off : Z) (total : nat) x lg s',
+  1 <= iovmax ->
+  write_all_loop sys fuel iovmax s bufs off total = (WDone x, lg, s') ->
+  honest lg -> progress lg -> no_empty_window iovmax bufs ->
+  x = ROk (total + total_len bufs) /\ wcount lg = total_len bufs.
+Proof.
+  induction fuel as [|fuel IH]; intros iovmax s bufs off total x lg s' Hi H Hh Hp Hw.
+  - simpl in H. destruct bufs as [|b bs].
+    + inversion H; subst. unfold total_len; simpl. split; [f_equal; lia|reflexivity].
+    + destruct (pick_call (b :: bs) _ off) eqn:Hc; [inversion H|].
+      exfalso. revert Hc. apply pick_call_is_some. simpl.
+      destruct (iovmax <? S (length bs)); lia.
+  - simpl in H. destruct bufs as [|b bs].
+    + inversion H; subst. unfold total_len; simpl. split; [f_equal; lia|reflexivity].
+    + set (bufs := b :: bs) in *.
+      destruct (pick_call bufs (if iovmax <? length bufs then iovmax else length bufs) off)
+        as [c|] eqn:Hc.
+      2:{ exfalso. revert Hc. apply pick_call_is_some. unfold bufs; simpl.
+          destruct (iovmax <? S (length bs)); lia. }
+      destruct (call_of_loop _ _ _ _ Hc) as (Hpre & Htl & Hlen & Hoff).
+      destruct (pick_call_some _ _ _ _ Hc) as (k & Hk & Hkle & Hk1 & _).
+      destruct (sys s c) as [a s1] eqn:Hs.
+      destruct a as [e|n].
+      * destruct (e =? EINTR)%Z eqn:Ee.
+        -- destruct (write_all_loop sys fuel iovmax s1 bufs off total) as [[r1 lg1] s2] eqn:Hr.
+           inversion H; subst. inversion Hh; subst. inversion Hp; subst.
+           destruct (IH _ _ _ _ _ _ _ _ Hi Hr H3 H5 Hw) as [I1 I2]. split; auto.
+        -- inversion H; subst. inversion Hp; subst. simpl in H2. subst e. discriminate.
+      * destruct n as [|m].
+        -- (* the system answered 0: only possible when the window is empty *)
+           inversion H; subst. inversion Hp as [|? ? Hz _]; subst. simpl in Hz.
+           assert (Hwin : total_len (riov c) = 0) by lia.
+           assert (Hall : total_len bufs = 0).
+           { unfold total_len in *. apply length_zero_iff_nil in Hwin.
+             rewrite (call_window _ _ _ _ Hc) in Hwin.
+             specialize (Hw 0). change (skipn 0 bufs) with bufs in Hw. rewrite (Hw Hwin). reflexivity. }
+           rewrite Hall. simpl. split; [f_equal; lia|reflexivity].
+        -- set (n := S m) in *.
+           destruct (buf_offset bufs n) as [o bufs1] eqn:Hbo.
+           destruct (write_all_loop sys fuel iovmax s1 (skipn o bufs1)
+                       (if (0 <=? off)%Z then (off + Z.of_nat n)%Z else off) (total + n))
+             as [[r1 lg1] s2] eqn:Hr.
+           inversion H; subst r1 lg s'. inversion Hh as [|? ? Hn Hh1]; subst.
+           inversion Hp as [|? ? _ Hp1]; subst. simpl in Hn.
+           assert (Hnb : n <= total_len bufs) by lia.
+           destruct (buf_offset_concat _ _ _ _ Hbo Hnb) as [Hcc _].
+           assert (Hw1 : no_empty_window iovmax (skipn o bufs1)).
+           { destruct (buf_offset_shape _ _ _ _ Hbo Hnb) as [Heq|(b0 & b' & rest & E1 & E2 & Hne)].
+             - rewrite Heq. now apply wnd_skipn.
+             - rewrite E2. apply (wnd_head iovmax b0); auto. rewrite <- E1. now apply wnd_skipn. }
+           destruct (IH _ _ _ _ _ _ _ _ Hi Hr Hh1 Hp1 Hw1) as [I1 I2].
+           assert (Hl : total_len (skipn o bufs1) = total_len bufs - n)
+             by (unfold total_len; rewrite Hcc, skipn_length; reflexivity).
+           rewrite Hl in I1, I2. simpl. split; [rewrite I1; f_equal; lia | lia].
+Qed.
+
+End WA.
+
+(* no_empty_window holds whenever the list fits one call, or has no empty buffer *)
+Lemma wnd_short iovmax bufs : length bufs <= iovmax -> no_empty_window iovmax bufs.
+Proof.
+  intros H k. rewrite firstn_all2; auto. rewrite skipn_length. lia.
+Qed.
+
+Lemma wnd_nonempty iovmax bufs :
+  1 <= iovmax -> Forall (fun b => b <> []) bufs -> no_empty_window iovmax bufs.
+Proof.
+  intros Hi Hf k Hnil.
+  assert (Hs : Forall (fun b => b <> []) (skipn k bufs)).
+  { rewrite <- (firstn_skipn k bufs) in Hf. apply Forall_app in Hf. tauto. }
+  destruct (skipn k bufs) as [|b l]; auto.
+  destruct iovmax; [lia|]. simpl in Hnil. apply app_eq_nil in Hnil as [Hb _].
+  inversion Hs; subst. contradiction.
+Qed.
+
+End B.
